@@ -1,8 +1,130 @@
-(* C04 -- property theorems only. *)
+(* C04 -- property theorems only.  Each is closed by [exact] of a lemma proved in
+   Proofs/C04*.v; Print Assumptions beneath each.
+   TODO (unproved), compared on every generated case instead (see harness/c04/NOTES.md):
+     commit_spec            : flat acts -> wf -> obs (commit acts) = commit_spec acts
+     generator_resumable    : wf -> obs (commit acts) = spec_exec acts   (re-entrant)
+     executed_monotone, one_per_discriminator, deferred_when_reached, commit never Crash / OutOfFuel *)
 From Coq Require Import List NArith ZArith Bool.
 Import ListNotations.
-Require Import Verif.Lib.Wire Verif.Gen.Facts_C04 Verif.Model.C04 Verif.Proofs.C04.
+Require Import Verif.Lib.Wire Verif.Lib.C04Sort Verif.Gen.Facts_C04 Verif.Model.C04.
+Require Import Verif.Proofs.C04 Verif.Proofs.C04_flat Verif.Proofs.C04_decide.
 
+(* the regenerated facts say: both repairs are in place (every new action is tested against an
+   already executed one; discarded actions leave remaining_actions) *)
 Theorem C04_facts_repaired_shape : cfg_current = cfg_fixed.
 Proof. exact facts_current_fixed. Qed.
 Print Assumptions C04_facts_repaired_shape.
+
+Theorem C04_facts_keys :
+  conflict_test = [1; 2]%N /\ orderandpos_key = [1; 2]%N /\ orderonly_key = [1]%N /\
+  bypath_key = [3; 4; 5]%N /\ output_key = [5]%N /\ min_order_cmp = 0%N /\ include_path = 1%N.
+Proof. exact facts_keys. Qed.
+Print Assumptions C04_facts_keys.
+
+(* the test in the code is exactly "base is not a strict prefix of p" *)
+Theorem C04_override_test_is_strict_prefix : forall base p,
+  conflicting base p = negb (strict_prefix base p).
+Proof. exact conflicting_strict_prefix. Qed.
+Print Assumptions C04_override_test_is_strict_prefix.
+
+Theorem C04_strict_prefix_spec : forall a b,
+  strict_prefix a b = true <-> exists r, r <> [] /\ b = a ++ r.
+Proof. exact strict_prefix_spec. Qed.
+Print Assumptions C04_strict_prefix_spec.
+
+(* Configurator.include: the including configurator's chain is a strict prefix of the included one's *)
+Theorem C04_include_strict_prefix : forall parent spec,
+  strict_prefix parent (child_path parent spec) = true.
+Proof. exact include_strict_prefix. Qed.
+Print Assumptions C04_include_strict_prefix.
+
+(* a discriminator not executed before: the action whose chain is a strict prefix of all the
+   others' is the one kept, and nothing is reported *)
+Theorem C04_fresh_discriminator_winner : forall res d l a,
+  NoDup l -> lookup d res = None -> In a l ->
+  (forall b, In b l -> b = a \/ strict_prefix (apath (snd a)) (apath (snd b)) = true) ->
+  detect1 cfg_current res d (sort (leb_by bypath_key) l) = ([a], []).
+Proof. exact detect1_fresh_winner. Qed.
+Print Assumptions C04_fresh_discriminator_winner.
+
+(* ... only such an action is ever kept silently *)
+Theorem C04_fresh_discriminator_sound : forall res d l firsts,
+  lookup d res = None -> l <> [] ->
+  detect1 cfg_current res d (sort (leb_by bypath_key) l) = (firsts, []) ->
+  exists a, firsts = [a] /\ In a l /\
+            forall b, In b l -> b = a \/ strict_prefix (apath (snd a)) (apath (snd b)) = true.
+Proof. exact detect1_fresh_sound. Qed.
+Print Assumptions C04_fresh_discriminator_sound.
+
+(* ... and when no action's chain is a strict prefix of all the others', exactly that discriminator is reported *)
+Theorem C04_fresh_discriminator_conflict : forall res d l,
+  lookup d res = None -> l <> [] ->
+  (forall a, In a l -> exists b, In b l /\ b <> a /\ strict_prefix (apath (snd a)) (apath (snd b)) = false) ->
+  exists infos, snd (detect1 cfg_current res d (sort (leb_by bypath_key) l)) = [(d, infos)].
+Proof. exact detect1_fresh_conflict. Qed.
+Print Assumptions C04_fresh_discriminator_conflict.
+
+(* a discriminator already executed (earlier phase, or earlier in the same re-entrant commit):
+   nothing more runs for it; silent iff EVERY new action lies strictly below the executed one,
+   otherwise exactly that discriminator is reported, the executed action's info first *)
+Theorem C04_executed_discriminator : forall res d l i w,
+  lookup d res = Some (i, w) ->
+  let r := detect1 cfg_current res d (sort (leb_by bypath_key) l) in
+  fst r = [] /\
+  (snd r = [] <-> forall b, In b l -> strict_prefix (apath w) (apath (snd b)) = true) /\
+  (snd r = [] \/ exists infos, snd r = [(d, aid w :: infos)]).
+Proof. exact detect1_executed. Qed.
+Print Assumptions C04_executed_discriminator.
+
+(* execute_actions on a program whose callables declare nothing is the plain recursion over the
+   order groups (no generator, no remaining_actions), unless it stops in Crash/OutOfFuel *)
+Theorem C04_commit_flat_is_phase_recursion : forall acts,
+  flat acts = true ->
+  let r := commit acts in
+  fst r = Crash \/ fst r = OutOfFuel \/ r = run_groups cfg_current [] None (groups_of acts).
+Proof. exact (commit_flat cfg_current). Qed.
+Print Assumptions C04_commit_flat_is_phase_recursion.
+
+(* an order group lying before the order already reached is refused ... *)
+Theorem C04_late_phase_refused : forall st order grp gs evs m,
+  min_order st = Some m -> (order < m)%Z ->
+  next_group cfg_current st ((order, grp) :: gs) evs = SStop (Late order m) evs st.
+Proof. exact (late_group_refused cfg_current). Qed.
+Print Assumptions C04_late_phase_refused.
+
+(* ... and a refusal always names a pending group strictly before the order reached *)
+Theorem C04_late_phase_only : forall gs st evs order m evs' st',
+  next_group cfg_current st gs evs = SStop (Late order m) evs' st' ->
+  min_order st = Some m /\ (order < m)%Z /\ In order (map fst gs).
+Proof. exact (late_only cfg_current). Qed.
+Print Assumptions C04_late_phase_only.
+
+(* the unrepaired code (both parameters off) contradicts the specification: DESIGN.md section 5 item 3 *)
+Theorem C04_commit_spec_refuted_crossphase :
+  wf_ids w_crossphase = true /\ wf_orders w_crossphase = true /\ flat w_crossphase = true /\
+  commit_spec w_crossphase = (SDone, [Run 0%N]) /\
+  obs (commit_with cfg_old w_crossphase) = (SConflict [1%N], [Run 0%N]).
+Proof. exact commit_spec_refuted_crossphase. Qed.
+Print Assumptions C04_commit_spec_refuted_crossphase.
+
+(* ... and item 4: a discarded action lingers and a later re-entrant declaration is refused as "late" *)
+Theorem C04_late_phase_only_refuted :
+  wf_ids w_lingering = true /\ wf_orders w_lingering = true /\
+  spec_exec w_lingering = (SDone, [Run 0%N; Run 2%N; Run 3%N]) /\
+  obs (commit_with cfg_old w_lingering) = (SLate 0 5, [Run 0%N; Run 2%N]).
+Proof. exact late_phase_only_refuted. Qed.
+Print Assumptions C04_late_phase_only_refuted.
+
+(* each repair is necessary for, and alone sufficient on, its own witness; the current code agrees with the spec on both *)
+Theorem C04_repairs_independent :
+  obs (commit_with {| prev_all := true; drop_discarded := false |} w_crossphase) = commit_spec w_crossphase /\
+  obs (commit_with {| prev_all := false; drop_discarded := true |} w_crossphase) <> commit_spec w_crossphase /\
+  obs (commit_with {| prev_all := false; drop_discarded := true |} w_lingering) = spec_exec w_lingering /\
+  obs (commit_with {| prev_all := true; drop_discarded := false |} w_lingering) <> spec_exec w_lingering /\
+  obs (commit w_crossphase) = commit_spec w_crossphase /\ obs (commit w_lingering) = spec_exec w_lingering.
+Proof.
+  exact (conj (proj1 crossphase_needs_prev_all) (conj (proj2 crossphase_needs_prev_all)
+        (conj (proj1 lingering_needs_drop) (conj (proj2 lingering_needs_drop)
+        (conj commit_fixed_crossphase commit_fixed_lingering))))).
+Qed.
+Print Assumptions C04_repairs_independent.
